@@ -30,6 +30,12 @@ claimed = {
  "C05": dict(engine="vsched", tech=SCHED+"; blocking decided by the scheduler, never by a clock", ref="§3/C05",
    text="The same exhaustive schedule exploration judged by the stuck-call oracle (a parked call is legitimate only if the linearized final state does not permit it to proceed), well-formed pipelines must terminate with everything consumed, and the constructor ladder N=0..64 runs under the scheduler so that a self-deadlock is a scheduler fact.",
    note="same bounds as C04"),
+ "C07": dict(engine="enum", tech=ENUM+" (all pairs and all triples of per-type boundary universes and of a structured mixed universe) + explicit-state search over the collator's private state", ref="§3/C07",
+   text="The full RankValues matrix over every boundary universe (bool, every integer width, floats incl. +-0/Inf/NaN/subnormals, a complex grid incl. signed zeros/Inf/NaN, runes, strings, slices, Go maps in every insertion order, typed collections) and over a structured `any` universe of ~300 nested values is computed on the real collator and checked for reflexivity, mirror symmetry, transitivity on all triples and the natural/lexicographic/key-then-value reference order; rebuilt copies must rank Equal; call histories incl. depth-limit panics must not change later answers.",
+   note="only the canonical dynamic types are mixed under the any collator; cross-type order is not specified (laws only)"),
+ "C08": dict(engine="enum", tech=ENUM+" (pairs, triples, rebuilt copies, every single-point mutation from a value AST, self-containing values) + explicit-state search over the collator's private state", ref="§3/C08",
+   text="The full CompareValues matrix over the C07 universes: equivalence laws on all pairs/triples, agreement with RankValues==Equal, agreement with an independent structural equality on the value AST, equal rebuilt copies (maps and sets in reversed insertion order), every single-point mutation unequal, self-containing values end in the documented depth-limit panic and leave the collator usable.",
+   note="same universe assumptions as C07"),
  "C09": dict(engine="enum", tech=ENUM+"; the ranking function and the random source are environments whose every answer sequence is enumerated", ref="§3/C09",
    text="Every array of length 0..9 over 4 values (tagged by position) under four rankers, every answer sequence of an arbitrary ranking function for lengths 0..6, a deterministic ladder of every length to 600 in five shapes, every random answer sequence of ShuffleValues up to length 5, and the Array/List/Catalog methods against the sorter, all on the real sorter; termination by fuel.",
    note="the sampling clause (random arrays up to 5000) is replaced by the deterministic ladder"),
